@@ -7,6 +7,8 @@ def conditions(tier):
     cs = [dict(module="vf.ch.h_c08", func="_nest2", cases=32, what="L1 shift invariance: every depth-2 canary returns the fresh-interpreter result for ANY initial trace counter"),
           dict(module=H, func="_fault", cases=3 * 3 * 2 * 2 * 4, what="L2: fault kind x position x caught/uncaught x depth x modes; counter never below start, registries untouched, enclosing differentiation continues, canaries fine", timeout={"quick": 300, "thorough": 900}),
           dict(module=H, func="_reuse_after_fault", cases=8, what="a VJP function is called again after one of its calls failed at the k-th backward rule (fan-out graph): same answers as a fresh one", timeout={"quick": 200, "thorough": 600}),
+          dict(module=H, func="_container_history3", cases=125 * 2, what="3 gradient calls w.r.t. ONE dict object that the caller grows / shrinks / breaks (unsupported leaf: the call must fail) / repairs in place between calls, optionally after an unrelated container gradient: each call gives what a fresh interpreter gives for the dict as it is now (no identity-keyed or half-filled cache)", timeout={"quick": 300, "thorough": 900}),
+          dict(module=H, func="_container_history_reach", expect="counterexample", what="reachability twin (container histories)"),
           dict(module=H, func="_fault_reach", expect="counterexample", what="reachability twin"),
           dict(module=H, func="_absolute_id_planted", expect="counterexample", what="planted defect: dependence on an absolute trace id")]
     for f1 in range(4):
